@@ -734,6 +734,14 @@ fn exec_unit(r: &mut Runner, op: &Op) -> String {
 }
 
 pub fn run_pair(seed: u64, profile: &CutProfile) -> RunReport {
+    run_pair_only(seed, profile, None)
+}
+
+/// Like `run_pair`; with `only`, just that cut point and variant are
+/// executed (replay of one violation).
+pub fn run_pair_only(
+    seed: u64, profile: &CutProfile, only: Option<(u64, String)>,
+) -> RunReport {
     let t0 = std::time::Instant::now();
     let base = world::make_run_dir(seed, profile.name);
     let snap_dir = base.join("snapshot");
@@ -951,19 +959,39 @@ pub fn run_pair(seed: u64, profile: &CutProfile) -> RunReport {
     if profile.torn_writes {
         variants.push("torn");
     }
+    if !profile.c09_mode && !profile.fs_only {
+        // A full disk: every creating write fails for a while.
+        variants.push("full");
+    }
     if profile.c09_mode {
         variants = vec!["crash"];
     }
     let c09_baseline: Option<BTreeSet<String>> = profile.c09_mode.then(|| {
         snap.open_requests.union(&twin.open_requests).cloned().collect()
     });
+    if let Some((k, _)) = &only {
+        ks = vec![*k];
+    }
     for k in ks {
         let site = twin.sites.get((k - 1) as usize).cloned()
             .unwrap_or_default();
         for variant in &variants {
+            if let Some((_, v)) = &only {
+                if v != variant { continue }
+            }
             let mode = match *variant {
                 "crash" => FaultMode::CrashAt(k),
                 "fail" => FaultMode::FailAt(k),
+                "full" => {
+                    // Only at a sample of the cut points, and only where
+                    // the window starts with a creating write.
+                    let creating = site.contains(":store:")
+                        || site.contains(":write:")
+                        || site.contains(":create_file:")
+                        || site.contains("rsync_create_tmp");
+                    if !creating || k % 3 != 0 { continue }
+                    FaultMode::FullWindow(k, 2 + (k % 7))
+                }
                 _ => {
                     if !site.contains(":write:") { continue }
                     FaultMode::TornAt(k, 100)
@@ -1041,6 +1069,7 @@ pub fn run_pair(seed: u64, profile: &CutProfile) -> RunReport {
                     "{variant} at mutation {k}/{n} [{site}] during {}: {}",
                     target.kind(), v.detail
                 );
+                v.step = k as usize;
                 v.rule = format!("{}@{}", v.rule, site_class);
                 report.violations.push(v);
             }
